@@ -77,16 +77,29 @@ pub struct Stall {
     pub nth: u32,
     /// number of clock events to wait for
     pub events: u32,
+    /// rendezvous: from the nth hit on, pause briefly at every hit until some *other* thread has
+    /// passed this site, then wait `events` more clock events and never fire again
+    pub until: Option<u32>,
+    /// rendezvous only while some thread is currently pausing at this site (two cooperating stalls)
+    pub gate: Option<u32>,
+    /// longest single pause of a rendezvous stall in microseconds, and how many pauses at most
+    pub cap_us: u32,
+    pub max_pauses: u32,
 }
 
 impl Stall {
     pub fn show(&self) -> String {
         format!(
-            "{}@hit{} roles={:#b} wait={}ev",
+            "{}@hit{} roles={:#b} wait={}ev{}",
             site_name(self.site),
             self.nth,
             self.roles,
-            self.events
+            self.events,
+            match (self.until, self.gate) {
+                (Some(u), Some(g)) => format!(" until:{} only-while-paused-at:{}", site_name(u), site_name(g)),
+                (Some(u), None) => format!(" until:{}", site_name(u)),
+                _ => String::new(),
+            }
         )
     }
 }
@@ -126,6 +139,11 @@ static PAIRS: [AtomicU8; NSITES * NSITES] = [Z8; NSITES * NSITES];
 static LAST: AtomicU32 = AtomicU32::new(u32::MAX);
 static TRACK_PAIRS: AtomicBool = AtomicBool::new(false);
 pub static STALLS_FIRED: AtomicU64 = AtomicU64::new(0);
+/// per-site pass counters, maintained only while a rendezvous stall is planned
+static WATCH: [AtomicU64; NSITES] = [Z64; NSITES];
+static WATCH_ON: AtomicBool = AtomicBool::new(false);
+static PAUSED_AT: [AtomicU64; NSITES] = [Z64; NSITES];
+pub static RENDEZVOUS_MET: AtomicU64 = AtomicU64::new(0);
 /// number of times any thread reached the point just before a blocking wait / park
 pub static B_WAITS: AtomicU64 = AtomicU64::new(0);
 
@@ -194,7 +212,14 @@ pub fn thread_begin(tid: u32, role: u32, seed: u64, policy: Policy, plan: &[Stal
             freeze_countdown: 0,
         })
     });
+    if plan.iter().any(|s| s.until.is_some()) {
+        WATCH_ON.store(true, Relaxed);
+    }
     ACTIVE.fetch_add(1, SeqCst);
+}
+
+pub fn watch_off() {
+    WATCH_ON.store(false, Relaxed);
 }
 
 pub fn thread_end() {
@@ -309,8 +334,14 @@ pub fn callback(s: u32) {
     if s == site::B_BEFORE_WAIT {
         B_WAITS.fetch_add(1, Relaxed);
     }
+    if WATCH_ON.load(Relaxed) {
+        WATCH[s as usize].fetch_add(1, Relaxed);
+    }
     // fast exit when the thread has no context (e.g. harness main thread outside runs)
     let mut fire: Option<u32> = None;
+    let mut rendezvous: Option<(u32, u32)> = None;
+    let mut rv_index: Option<u32> = None;
+    let mut rv_cap: u32 = 200;
     let mut bound: Option<StepBound> = None;
     let mut tid = u32::MAX;
     let mut action = 0u8; // 1 yield, 2 spin, 3 sleep
@@ -364,9 +395,30 @@ pub fn callback(s: u32) {
                     for (st, hits) in ctx.stalls.iter_mut() {
                         if st.site == s {
                             *hits += 1;
-                            if *hits == st.nth {
-                                fire = Some(st.events);
-                                ctx.stalls_fired += 1;
+                            match st.until {
+                                None => {
+                                    if *hits == st.nth {
+                                        fire = Some(st.events);
+                                        ctx.stalls_fired += 1;
+                                    }
+                                }
+                                Some(u) => {
+                                    // u32::MAX in `nth` marks a rendezvous that has been met / given up
+                                    let open = match st.gate {
+                                        Some(g) => PAUSED_AT[g as usize].load(Relaxed) > 0,
+                                        None => true,
+                                    };
+                                    if st.nth != u32::MAX && *hits >= st.nth && open {
+                                        if st.max_pauses == 0 {
+                                            st.nth = u32::MAX;
+                                        } else {
+                                            st.max_pauses -= 1;
+                                            rendezvous = Some((u, st.events));
+                                            rv_index = Some(st.site);
+                                            rv_cap = st.cap_us;
+                                        }
+                                    }
+                                }
                             }
                         }
                     }
@@ -393,7 +445,49 @@ pub fn callback(s: u32) {
             }
         }
     }
-    if let Some(ev) = fire {
+    if let Some((u, ev)) = rendezvous {
+        // pause (at most 200 us) for another thread to pass site `u`
+        let base = WATCH[u as usize].load(Relaxed);
+        PAUSED_AT[s as usize].fetch_add(1, Relaxed);
+        let t0 = Instant::now();
+        let mut met = false;
+        let mut i = 0u32;
+        loop {
+            if WATCH[u as usize].load(Relaxed) != base {
+                met = true;
+                break;
+            }
+            i += 1;
+            if cfg!(miri) {
+                if i > 6 {
+                    break;
+                }
+                std::thread::yield_now();
+            } else {
+                if t0.elapsed() > Duration::from_micros(rv_cap as u64) {
+                    break;
+                }
+                std::hint::spin_loop();
+            }
+        }
+        PAUSED_AT[s as usize].fetch_sub(1, Relaxed);
+        if met {
+            RENDEZVOUS_MET.fetch_add(1, Relaxed);
+            do_stall(ev);
+            // never again
+            let _ = CTX.try_with(|c| {
+                if let Ok(mut b) = c.try_borrow_mut() {
+                    if let Some(ctx) = b.as_mut() {
+                        for (st, _) in ctx.stalls.iter_mut() {
+                            if Some(st.site) == rv_index && st.until == Some(u) {
+                                st.nth = u32::MAX;
+                            }
+                        }
+                    }
+                }
+            });
+        }
+    } else if let Some(ev) = fire {
         do_stall(ev);
     } else {
         match action {
